@@ -988,6 +988,7 @@ def run(ctx):
             for k in rules or ['valid']:
                 nm = CODE_RULE.get(k, 'valid') if k != 'valid' else 'valid'
                 dist['model_rules'][nm] = dist['model_rules'].get(nm, 0) + 1
+            fam = dist.setdefault('family_valid_share', {}).setdefault(lab, [0, 0]); fam[1] += 1; fam[0] += 1 if m['valid'][0] else 0
             if m['valid'][0]: dist['valid']['valid0'] += 1
             else:
                 dist['valid']['invalid0'] += 1
